@@ -13,6 +13,14 @@ SEQ = {"tuple", "nom_tuple", "pair", "preceded", "terminated", "delimited", "sep
 CONSUMING_METHODS = re.compile(r"^consume_\w+$")
 
 
+def as_match(n):
+    """`if let PAT = E { A } else { B }` seen as `match E { PAT => A, _ => B }` (the two are interchangeable for a maintainer)"""
+    if is_node(n) and n[0] == "if" and is_node(n[1]) and n[1][0] == "letc":
+        els = n[3] if n[3] is not None else ["block", []]
+        return ["match", n[1][2], [[n[1][1], None, ["block", n[2]], 0], [["pwild"], None, els, 0]]]
+    return n
+
+
 class Nullability:
     def __init__(self, items):
         self.fns = {}
@@ -20,6 +28,7 @@ class Nullability:
             if it["k"] == "fn":
                 self.fns.setdefault(it["name"], it)
         self.cons = set()     # functions proven consuming
+        self.fn_inits = None  # single-assignment locals of the function that encloses the loop under analysis (set by the caller)
         self.why = {}
         self.fix()
 
@@ -199,6 +208,7 @@ class Nullability:
             e = e[1][0][1]
         if not is_node(e) or depth > 12:
             return None
+        e = as_match(e)
         if depth > 0 and e[0] in ("block", "unsafe"):
             # an arm `{ let (i, x) = P(i)?; Ok((i, ..)) }`: a consuming statement on the spine of the arm's block
             for st in e[1]:
@@ -327,9 +337,13 @@ class Nullability:
                     return ("counter", "%s += 1" % path_of(st[1][2]))
             # while P(input.clone()).is_err() { consuming spine }
         # (a) explicit progress comparison between two cursors / lengths of different inputs
+        from lib.locals import local_inits, through_locals
+        inits = dict(self.fn_inits or {})
+        inits.update(local_inits(body))
         for b in find(body, "bin"):
             if b[1] in ("==", "!=", "<=", ">=", "<", ">"):
-                l, r = render(b[2]), render(b[3])
+                # either side may be a named snapshot (`let before = rest.cursor; .. if next.cursor <= before`)
+                l, r = render(through_locals(b[2], inits)), render(through_locals(b[3], inits))
                 if re.search(r"\.cursor$|\.len\(\)$", l) and re.search(r"\.cursor$|\.len\(\)$", r) and l.split(".")[0] != r.split(".")[0]:
                     return ("progress-comparison", "%s %s %s" % (l, b[1], r))
         # (b) a consuming parser on the spine of the loop body
@@ -343,7 +357,12 @@ class Nullability:
                     env[st[1][1]] = c
         # (c) every statement that rebinds the loop input takes it from a consuming parser's Ok result
         rebinds = []
-        for n in walk(body):
+        nodes = list(walk(body))
+        if kind == "while" and is_node(loop[1]) and loop[1][0] == "letc":
+            # `while let Ok((rest, x)) = p(cur.clone()) { cur = rest; }` == loop { match p(..) { Ok(..) => {..}, _ => break } }
+            nodes.append(["match", loop[1][2], [[loop[1][1], None, ["block", body], 0], [["pwild"], None, ["break"], 0]]])
+        for n in nodes:
+            n = as_match(n)
             if n[0] == "match" and is_node(n[1]) and n[1][0] == "call":
                 f = n[1][1]
                 for arm in n[2]:
@@ -354,6 +373,24 @@ class Nullability:
                         assigns = [a for a in find(arm[2], "assign") if path_of(a[1]) in fed]
                         if assigns:
                             rebinds.append((render(f)[:50], self.classify(f, env) if is_node(f) else "?"))
+        # the same rebinding written on the spine: `let (rest, x) = match p(cur.clone()) { Ok(v) => v, .. };` / `= p(cur.clone())?;` followed
+        # by `cur = rest` (the loop variable is fed to p and then overwritten with what p left)
+        seen_r = {r for r, _ in rebinds}
+        for st in find(body, "let"):
+            if len(st) < 3 or st[2] is None or not is_node(st[1]):
+                continue
+            bound = [q[1] for q in find(st[1], "pident")]
+            if not bound:
+                continue
+            apps = [c for c in find(st[2], "call") if self.is_application(c)]
+            for c in apps:
+                fed = {x[1] for a in c[2] for x in find(a, "path")}
+                for a in find(body, "assign"):
+                    if path_of(a[1]) in fed and path_of(a[2]) in bound and path_of(a[1]) not in bound:
+                        key = render(c[1])[:50]
+                        if key not in seen_r:
+                            seen_r.add(key)
+                            rebinds.append((key, self.classify(c[1], env) if is_node(c[1]) else "?"))
         if rebinds and all(c == "C" for _, c in rebinds):
             # plain `let (input, _) = p(input)?` rebinding on the spine with nullable p is fine: it never loops without a C rebind
             return ("consuming-rebinds", ", ".join(r for r, _ in rebinds))
